@@ -696,3 +696,7 @@ def run(ctx):
     # with skip off the truth table has no dropping row)
     from rules import c20
     c20.rule_decision_shape(ctx, R="C06/dropped-only-on-request")
+    # "in every dump": the options that decide who is shortened — the crash context (never shortened) and the size limit — are what
+    # the caller configured, also in a second dump from the same writer (same rule instance as C19/config-preserved)
+    from rules import c19
+    c19.rule_config_preserved(ctx, R="C06/options-kept", only=("crash_context", "minidump_size_limit", "skip_stacks_if_mapping_unreferenced", "principal_mapping_address", "sanitize_stack"))
